@@ -68,6 +68,10 @@ pub struct Script {
     /// position anchors, strictly increasing, first one 0
     pub anchors: Vec<u64>,
     pub steps: Vec<Step>,
+    /// state predicted by the specification at the end of the script (TLC-generated scripts):
+    /// {"abs": [{"a":0|1,"next":n,"recs":[[pos,len],..]},..], "w": [file, off], "files": [..]}
+    #[serde(default, skip_serializing_if = "Option::is_none")]
+    pub expect: Option<serde_json::Value>,
 }
 
 pub const ANCHOR_SPAN: u64 = 1 << 24;
